@@ -943,8 +943,13 @@ func (c *Conn) handleData(arg string) {
 	r := newDataReader(c)
 	code, enhancedCode, msg := dataErrorToStatus(c.Session().Data(r))
 	r.limited = false
-	io.Copy(ioutil.Discard, r) // Make sure all the data has been consumed
+	_, drainErr := io.Copy(ioutil.Discard, r) // Make sure all the data has been consumed
 	c.writeResponse(code, enhancedCode, msg)
+	if drainErr != nil {
+		// The end of the message was never seen (read error or timeout):
+		// what follows must not be interpreted as commands.
+		c.Close()
+	}
 }
 
 func (c *Conn) handleBdat(arg string) {
@@ -1173,11 +1178,11 @@ func (c *Conn) handleDataLMTP() {
 		// Fallback to using a single status for all recipients.
 		err := c.Session().Data(r)
 		r.limited = false
-		io.Copy(ioutil.Discard, r) // Make sure all the data has been consumed
+		_, drainErr := io.Copy(ioutil.Discard, r) // Make sure all the data has been consumed
 		for _, rcpt := range c.recipients {
 			status.SetStatus(rcpt, err)
 		}
-		done <- true
+		done <- drainErr == nil
 	} else {
 		go func() {
 			defer func() {
@@ -1196,8 +1201,8 @@ func (c *Conn) handleDataLMTP() {
 
 			status.fillRemaining(lmtpSession.LMTPData(r, status))
 			r.limited = false
-			io.Copy(ioutil.Discard, r) // Make sure all the data has been consumed
-			done <- true
+			_, drainErr := io.Copy(ioutil.Discard, r) // Make sure all the data has been consumed
+			done <- drainErr == nil
 		}()
 	}
 
@@ -1206,8 +1211,8 @@ func (c *Conn) handleDataLMTP() {
 		c.writeResponse(code, enchCode, "<"+rcpt+"> "+msg)
 	}
 
-	// If done gets false, the panic occured in LMTPData and the connection
-	// should be closed.
+	// If done gets false, the panic occured in LMTPData or the end of the
+	// message was never seen, and the connection should be closed.
 	if !<-done {
 		c.Close()
 	}
